@@ -7,8 +7,15 @@
 import PasfmtModel.Proofs.LexShape
 import PasfmtModel.Proofs.Simd
 import PasfmtModel.Proofs.Keywords
+import PasfmtModel.Proofs.LexTotal
 
 namespace Pasfmt.C13
+
+/-- scanning is total: for every byte string (so for every UTF-8 text) a token list is returned; no
+    sub-lexer runs out of fuel, no token is empty (the loop always makes progress) and no slice
+    leaves the text, with either identifier routine.  (Slices on character boundaries: see
+    `lex_char_boundaries`.) -/
+theorem lex_total (simd : Bool) (s : Bytes) : ∃ toks, lexWith simd s = some toks := lexWith_total simd s
 
 /-- leading blanks and contents of the tokens concatenate back to exactly the input -/
 theorem lex_lossless (s : Bytes) (toks : List RawTok) (h : lex s = some toks) :
